@@ -81,6 +81,7 @@ def op_to_val(o):
     if k == 'drop': return [2, o[1]]
     if k == 'reset': return [3, o[1], [[net_to_val(n), mx, a] for n, mx, a in o[2]]]
     if k == 'val': return [4, net_to_val(o[1]), o[2], [[c, list(b)] for c, b in o[3]]]
+    if k == 'valx': return [4, [o[1], list(o[2][1]), o[2][2]], o[3], [[c, list(b)] for c, b in o[4]]]
     if k == 'iter': return [5]
     raise ValueError(o)
 
@@ -91,6 +92,7 @@ def op_to_coq(o):
     if k == 'drop': return '(ODrop %s)' % cN(o[1])
     if k == 'reset': return '(OReset %s %s)' % (cN(o[1]), clist(['(%s, %s, %s)' % (net_to_coq(n), cN(mx), cN(a)) for n, mx, a in o[2]]))
     if k == 'val': return '(OValidate %s %s %s)' % (net_to_coq(o[1]), cN(o[2]), clist([cpair(cN(c), val.cbytes(b)) for c, b in o[3]]))
+    if k == 'valx': return '(OValidateOther %s %s %s %s)' % (cN(o[1]), net_to_coq(o[2]), cN(o[3]), clist([cpair(cN(c), val.cbytes(b)) for c, b in o[4]]))
     if k == 'iter': return 'OIter'
     raise ValueError(o)
 
@@ -157,6 +159,8 @@ class Prop:
             elif k == 'reset': o[2] = [(tup(n), mx, a) for n, mx, a in o[2]]
             elif k == 'val':
                 o[1] = tup(o[1]); o[3] = [(cb[0], list(cb[1])) for cb in o[3]]
+            elif k == 'valx':
+                o[2] = tup(o[2]); o[4] = [(cb[0], list(cb[1])) for cb in o[4]]
             ops.append(tuple(o))
         c['ops'] = ops
         return c
@@ -335,8 +339,135 @@ class Prop:
                 cases.append({'kind': 'exhaustive', 'ops': ops})
         return cases
 
-    def gen_cases(self, rng, tier):
+    # ---- classes enumerated on EVERY run (no randomness): one per clause of the property text
+    # and per branch / comparison of validate, insert, remove, drop_source, as_path_last_segment
+    def enumerated_cases(self):
         cases = []
+        def add(cls, ops): cases.append({'kind': 'enum', 'cls': cls, 'ops': ops})
+        SQ = lambda *l: [(2, aspath_bytes([(SEQ, list(l))]))]
+        for fam in (4, 6):
+            W = WIDTH[fam]
+            base = ('10' * 64)[:W]                      # alternating bits: every truncation differs
+            # (a) ladder: a VRP at EVERY prefix length 0..W of one address, a route at every length:
+            #     both sides of `len <= mask`, every value of the per-octet keep mask, mask = 0 and = W
+            ops = []
+            for l in range(0, W + 1):
+                ops.append(('ins', l % 2, mk_net(fam, base[:l]), min(255, l + 2), [65001, 65002, 0][l % 3]))
+            for l in range(0, W + 1):
+                ops.append(('val', mk_net(fam, base[:l]), 65000, SQ(65009, [65001, 65002][l % 2])))
+            add('ladder_ipv%d' % fam, ops)
+            # (b) host bits set in the route beyond its length (the lookup must cut them), at every length
+            ops = [('ins', 0, mk_net(fam, base[:l]), W, 65001) for l in (0, 1, 7, 8, 9, W - 1, W)]
+            for l in range(0, W + 1):
+                full = base[:l] + '1' * (W - l)
+                ops.append(('val', (fam, addr_of_bits(fam, full), l), 65000, SQ(65001)))
+            add('route_host_bits_ipv%d' % fam, ops)
+            # (c) siblings and more-specifics at every length: never consulted
+            ops = []
+            for l in range(1, W + 1):
+                sib = base[:l - 1] + ('1' if base[l - 1] == '0' else '0')
+                ops.append(('ins', 0, mk_net(fam, sib), W, 65001))
+            for l in range(0, W + 1, 1 if fam == 4 else 5):
+                ops.append(('val', mk_net(fam, base[:l]), 65000, SQ(65001)))
+            add('siblings_ipv%d' % fam, ops)
+            ops = [('ins', 0, mk_net(fam, base[:l]), W, 65001) for l in range(1, W + 1)]
+            ops += [('val', mk_net(fam, base[:0]), 65000, SQ(65001)), ('val', mk_net(fam, ''), 65001, [])]
+            add('only_more_specific_ipv%d' % fam, ops)
+            # (d) max-length on both sides of the route length, and the u8 extremes
+            for L in (0, 1, 8, W // 2, W - 1, W):
+                ops = []
+                for j, mx in enumerate(sorted({max(0, L - 1), L, min(255, L + 1), 0, 255, W})):
+                    ops.append(('ins', j % 2, mk_net(fam, base[:min(L, j)]), mx, 65001))
+                ops.append(('val', mk_net(fam, base[:L]), 65000, SQ(65001)))
+                ops.append(('val', mk_net(fam, base[:L]), 65000, SQ(65002)))
+                add('maxlen_boundary_ipv%d' % fam, ops)
+        # (e) every emptiness combination of (matched, unmatched_asn, unmatched_length): the priority of the state
+        n16 = mk_net(4, '0000101000000001')
+        parts = {'m': ('ins', 0, mk_net(4, '00001010'), 24, 65001), 'a': ('ins', 0, mk_net(4, '000010100'), 24, 65002),
+                 'l': ('ins', 0, mk_net(4, '0000101000'), 12, 65001)}
+        for mask in range(8):
+            ops = [parts[k] for j, k in enumerate('mal') if mask >> j & 1]
+            ops.append(('ins', 1, mk_net(6, ''), 0, 1))          # the other family never matters
+            if not ops[:-1]: ops.append(('ins', 0, mk_net(4, '1'), 1, 1))   # keep the family non-empty
+            ops.append(('val', n16, 65000, SQ(65001)))
+            add('list_combination_%d' % mask, ops)
+        # (f) AS comparison: AS 0 VRP, AS 0 origin, u32 maximum, origin = local AS
+        for vas in (0, 1, 65000, 65001, 4294967295):
+            ops = [('ins', 0, n16, 16, vas)]
+            for oas in (0, 1, 65000, 65001, 4294967295):
+                ops.append(('val', n16, 65000, SQ(65002, oas)))
+            ops.append(('val', n16, 65000, []))
+            ops.append(('val', n16, 0, []))
+            add('as_matrix', ops)
+        # (g) every AS_PATH shape: origin derivation (each tail type, empty, long, several segments,
+        #     AS numbers whose octets look like segment headers, attribute position, duplicates)
+        hdr_like = [0x02010000, 0x01010101, 0x0201FDE9, 0x02FF0000, 0x00000201]
+        shapes = [
+            ('no_attr', []), ('only_other_attrs', [(1, []), (5, [])]), ('empty_path', [(2, [])]),
+            ('seq_1', SQ(65001)), ('seq_2', SQ(65002, 65001)), ('seq_254', SQ(*([65002] * 253 + [65001]))),
+            ('seq_255', SQ(*([65002] * 254 + [65001]))),
+            ('seq_255_then_seq_1', [(2, aspath_bytes([(SEQ, [65002] * 255), (SEQ, [65001])]))]),
+            ('seq_255_then_set', [(2, aspath_bytes([(SEQ, [65001] * 255), (SET, [65001])]))]),
+            ('set_1', [(2, aspath_bytes([(SET, [65001])]))]), ('set_255', [(2, aspath_bytes([(SET, [65001] * 255)]))]),
+            ('seq_then_set', [(2, aspath_bytes([(SEQ, [65001]), (SET, [65001, 65000])]))]),
+            ('set_then_seq', [(2, aspath_bytes([(SET, [65002]), (SEQ, [65001])]))]),
+            ('confed_seq', [(2, aspath_bytes([(CSEQ, [65001])]))]), ('confed_set', [(2, aspath_bytes([(CSET, [65001])]))]),
+            ('seq_then_confed_seq', [(2, aspath_bytes([(SEQ, [65001]), (CSEQ, [65002])]))]),
+            ('seq_then_confed_set', [(2, aspath_bytes([(SEQ, [65001]), (CSET, [65002])]))]),
+            ('confed_then_seq', [(2, aspath_bytes([(CSEQ, [65002]), (CSET, [65002]), (SEQ, [65001])]))]),
+            ('five_segments', [(2, aspath_bytes([(SEQ, [1]), (SET, [2]), (CSEQ, [3]), (CSET, [4]), (SEQ, [5, 65001])]))]),
+            ('as0_tail', SQ(65001, 0)), ('as_max_tail', SQ(65001, 4294967295)),
+            ('two_as_path_attrs', [(2, aspath_bytes([(SEQ, [65001])])), (2, aspath_bytes([(SET, [65002])]))]),
+            ('two_as_path_attrs_rev', [(2, aspath_bytes([(SET, [65002])])), (2, aspath_bytes([(SEQ, [65001])]))]),
+            ('as_path_last_attr', [(1, []), (3, []), (4, []), (5, []), (2, aspath_bytes([(SEQ, [65001])]))]),
+        ] + [('header_like_as_%08x' % a, [(2, aspath_bytes([(SEQ, [a, 65001])]))]) for a in hdr_like] \
+          + [('header_like_tail_%08x' % a, [(2, aspath_bytes([(SEQ, [65001, a])]))]) for a in hdr_like]
+        # byte strings the UPDATE parser would refuse but the API can inject: compared with the model only
+        good = aspath_bytes([(SEQ, [65002, 65001])])
+        shapes += [('malformed_%d' % j, [(2, b)]) for j, b in enumerate(
+            [[SEQ], [SEQ, 0], [SET, 0], good[:-1], good[:-4], good[:3], good + [SEQ], good + [SEQ, 1], good + [SET, 1, 0, 0],
+             good + [0, 1, 0, 0, 0, 1], good + [5, 1, 0, 0, 0, 1], good + [255, 1, 0, 0, 0, 1], [SEQ, 0] + good, good + [SEQ, 0]])]
+        for name, attrs in shapes:
+            ops = [('ins', 0, n16, 16, 65001), ('ins', 1, n16, 16, 65000), ('val', n16, 65000, attrs),
+                   ('rem', 1, n16, 16, 65000), ('val', n16, 65000, attrs), ('val', n16, 65001, attrs)]
+            add('aspath_' + name.split('_%')[0] if name.startswith('header_like') else 'aspath_' + name, ops)
+        # (h) the set keyed by (cache, prefix, max-length, AS): variants differing in exactly one component
+        base_v = (0, (4, (10, 1, 0, 0), 16), 24, 65001)
+        variants = [(1, base_v[1], 24, 65001), (0, (4, (10, 1, 0, 0), 17), 24, 65001), (0, (4, (10, 1, 0, 1), 16), 24, 65001),
+                    (0, base_v[1], 25, 65001), (0, base_v[1], 24, 65002), (0, (6, tuple([10, 1] + [0] * 14), 16), 24, 65001)]
+        ops = [('ins',) + base_v, ('ins',) + base_v]
+        for v in variants: ops += [('ins',) + v, ('ins',) + v]
+        for v in variants: ops += [('rem',) + v, ('rem',) + v]
+        ops += [('rem',) + base_v, ('iter',), ('val', (4, (10, 1, 0, 0), 16), 65000, SQ(65001)), ('rem',) + base_v]
+        add('set_single_component_variants', ops)
+        ops = []
+        for v in [base_v] + variants: ops.append(('ins',) + v)
+        ops += [('drop', 2), ('drop', 1), ('iter',), ('drop', 0), ('drop', 0), ('iter',),
+                ('reset', 0, [(base_v[1], 24, 65001), (base_v[1], 24, 65001), (base_v[1], 25, 65001)]),
+                ('reset', 0, []), ('reset', 1, [(base_v[1], 24, 65001)]), ('ins',) + base_v, ('reset', 0, [(variants[5][1], 24, 1)]),
+                ('drop', 1), ('iter',)]
+        add('set_drop_and_reset', ops)
+        ops = [('rem',) + base_v, ('drop', 0), ('reset', 0, []), ('iter',), ('ins',) + base_v, ('rem', 0, base_v[1], 24, 65001),
+               ('val', base_v[1], 65000, SQ(65001)), ('ins', 0, variants[5][1], 24, 65001), ('val', base_v[1], 65000, SQ(65001)),
+               ('val', variants[5][1], 65000, SQ(65001))]
+        add('set_on_empty_and_last_removed', ops)
+        # (i) routes of non-IP families carrying the same prefix: no state, no policy match
+        ops = [('ins', 0, n16, 16, 65001), ('ins', 0, (6, tuple([10, 1] + [0] * 14), 16), 16, 65001)]
+        for kind, net in ((14, n16), (24, n16), (16, (6, tuple([10, 1] + [0] * 14), 16)), (26, (6, tuple([10, 1] + [0] * 14), 16))):
+            ops.append(('valx', kind, net, 65000, SQ(65001)))
+            ops.append(('valx', kind, net, 65000, []))
+        ops.append(('val', n16, 65000, SQ(65001)))
+        add('non_ip_nlri', ops)
+        add('non_ip_nlri_empty_table', [('valx', 14, n16, 65000, SQ(65001)), ('valx', 26, (6, tuple([0] * 16), 0), 65000, [])])
+        # (j) VRP prefix lengths beyond the address width and at it (the RTR decoder does not check them)
+        ops = [('ins', 0, (4, (10, 1, 0, 0), 33), 40, 65001), ('ins', 0, (4, (10, 1, 0, 0), 255), 255, 65001),
+               ('ins', 0, (4, (10, 1, 0, 0), 32), 32, 65001), ('val', (4, (10, 1, 0, 0), 32), 65000, SQ(65001)), ('iter',),
+               ('rem', 0, (4, (10, 1, 0, 0), 255), 255, 65001), ('iter',)]
+        add('vrp_length_beyond_width', ops)
+        return cases
+
+    def gen_cases(self, rng, tier):
+        cases = self.enumerated_cases()
         # hand-written seeds: the two directions of the lookup, AS 0, AS_SET, empty table
         n = lambda a, b, c, d, m: (4, (a, b, c, d), m)
         sq = lambda *l: [(2, aspath_bytes([(SEQ, list(l))]))]
@@ -389,8 +520,8 @@ class Prop:
         if obs == [-1]: return obs
         out = []
         for o, ob in zip(case['ops'], obs):
-            if o[0] == 'val':
-                out.append([[r[0], r[1], sorted(r[2]), sorted(r[3]), sorted(r[4])] for r in ob])
+            if o[0] in ('val', 'valx'):
+                out.append([[[r[0], r[1], sorted(r[2]), sorted(r[3]), sorted(r[4])] for r in ob[0]], ob[1]])
             else:
                 out.append(sorted(ob))
         return out
@@ -406,6 +537,11 @@ class Prop:
         T = SpecTable()
         for k, (o, ob) in enumerate(zip(c['ops'], obs)):
             T.apply(o)
+            if o[0] == 'valx':
+                # a route of a non-IP family has no RFC 6811 state: no result, no `rpki` condition holds
+                if ob[0] != [] or ob[1] != [0, 0, 0]:
+                    fails.append((k, 'non-ip', 'op %d: a validation state is claimed for a non-IP route (kind %d)' % (k, o[1])))
+                continue
             if o[0] != 'val':
                 if sorted(ob) != T.dump():
                     fails.append((k, 'set', 'op %d (%s): installed VRPs differ from the set keyed by (cache, prefix, max-length, AS)' % (k, o[0])))
@@ -419,11 +555,16 @@ class Prop:
                 continue
             st, matched, unm = validate_spec(vr, route, origin)
             names = ['NotFound', 'Valid', 'Invalid']
+            ob, pol = ob[0], ob[1]
             if ob == []:
                 cls = 'family-empty' if not vr else 'none'
                 fails.append((k, cls, 'op %d: validate returned no result for %s/%d; RFC 6811 state is %s' % (
                     k, '.'.join(map(str, route[1])), route[2], names[st])))
                 continue
+            # the state used by policy: exactly the condition `rpki <RFC 6811 state>` holds
+            if pol != [1 if j == st else 0 for j in range(3)]:
+                fails.append((k, 'policy', 'op %d: route %s/%d: policy conditions rpki not-found/valid/invalid evaluate to %s, RFC 6811 state is %s' % (
+                    k, '.'.join(map(str, route[1])), route[2], pol, names[st])))
             r = ob[0]
             cls = 'state'
             if origin[0] == 'none' and any(x[4] == local and x[4] != 0 and route[2] <= x[3] for x in vr if covers((x[0], x[1], x[2]), route)):
@@ -484,11 +625,12 @@ class Prop:
             if o[0] in ('ins', 'rem') and any(x[:3] == (o[2][0], tuple(o[2][1]), o[2][2]) for x in T.s): hit = True
             T.apply(o)
         if not interesting and not hit: return None
-        states = tuple((ob[0][0] if ob else -1) for o, ob in zip(c['ops'], obs) if o[0] == 'val')
+        states = tuple((ob[0][0][0] if ob[0] else -1) for o, ob in zip(c['ops'], obs) if o[0] == 'val')
         return (tuple(o[0] for o in c['ops']), tuple(rel), states)
 
     def classify(self, c, obs):
         tags = ['kind_' + c.get('kind', '?')]
+        if c.get('cls'): tags.append('enum_' + c['cls'])
         fams = {o[1][0] for o in c['ops'] if o[0] == 'val'}
         tags += ['val_ipv%d' % f for f in sorted(fams)]
         for t in set(x for r in self.relations(c) for x in r): tags.append('rel_' + t)
@@ -500,14 +642,15 @@ class Prop:
                 else: tags.append('mask_on_octet')
         if obs != [-1]:
             for o, ob in zip(c['ops'], obs):
-                if o[0] == 'val': tags.append('state_%s' % (['NotFound', 'Valid', 'Invalid'][ob[0][0]] if ob else 'none'))
+                if o[0] == 'val': tags.append('state_%s' % (['NotFound', 'Valid', 'Invalid'][ob[0][0][0]] if ob[0] else 'none'))
+                if o[0] == 'valx': tags.append('non_ip_nlri_%d' % o[1])
         else:
             tags.append('panic')
         return sorted(set(tags))
 
 Prop.required_theorems = [
     'validate_code_eq_rfc6811_outside_known', 'validate_code_eq_rfc6811_refuted', 'validate_none_iff_known',
-    'validate_matched_exact', 'noncovering_vrps_irrelevant', 'origin_code_eq_rfc6811',
+    'validate_matched_exact', 'noncovering_vrps_irrelevant', 'policy_condition_eq_rfc6811_outside_known', 'policy_condition_known', 'origin_code_eq_rfc6811',
     'rfc6811_state_characterised', 'mask_bytes_eq_prefix_bits',
     'vrp_table_refines_set', 'vrp_history_refines_set', 'iter_lists_installed',
     'validate_pre_refuted_covering', 'validate_pre_refuted_more_specific', 'validate_pre_refuted_as_set',
